@@ -125,7 +125,8 @@ CHECKS = {
         design="2/C20"),
     "C04": dict(
         technique="differential testing (C++ vs Python reference implementation, and 8 Python configurations against each other) on generated instants and wall times",
-        text="Every zone of zonedbx, decoded by the C++ brokers and mapped to the Python data model (same data by construction): C++ "
+        text="Freshly compiled sources (real 2025b for 1995..2040, enumerated + Hypothesis-drawn small sources, a source with second-resolution offsets; C++ on the generated tables, Python on the compiler's in-memory tables) and: "
+             "Every zone of zonedbx, decoded by the C++ brokers and mapped to the Python data model (same data by construction): C++ "
              "(offset, DST offset, abbreviation) vs ZoneSpecifier at every change instant +-1 s of either side and month starts; the "
              "offset selected for every wall minute within +-180 min of every transition (breakpoint sub-intervals of either side), "
              "year ends and seed-drawn wall times; option sets {default, 13-month/basic/basic} on all zones and all 8 on 40 seed-drawn "
